@@ -24,7 +24,7 @@ type c19Op struct {
 	Lang string `json:"lang"`
 }
 
-var c19KindNames = []string{"avc1+ps", "avc3-nops", "avc3+ps", "hvc1+ps", "hev1-nops", "hev1+ps", "aac-lc", "he-aac", "ac-3", "ec-3", "stpp", "wvtt(text)", "wvtt(wvtt)", "meta-none", "video-none", "avc1+ps(2nd sps)"}
+var c19KindNames = []string{"avc1+ps", "avc3-nops", "avc3+ps", "hvc1+ps", "hev1-nops", "hev1+ps", "aac-lc", "he-aac", "ac-3", "ec-3", "stpp", "wvtt(text)", "wvtt(wvtt)", "meta-none", "video-none", "avc1+ps(2nd sps)", "stpp(media type stpp)"}
 
 const (
 	c19SPS1 = "6764001eacd940a02ff9610000030001000003003c8f162d96"
@@ -46,6 +46,8 @@ func c19Media(kind int) string {
 		return "audio"
 	case 10:
 		return "subtitle"
+	case 16:
+		return "stpp" // the media type name examples/initcreator uses for TTML tracks
 	case 11:
 		return "text"
 	case 12:
@@ -81,7 +83,7 @@ func c19Apply(init *mp4.InitSegment, op c19Op) error {
 		return trak.SetAC3Descriptor(&mp4.Dac3Box{FSCod: 0, BSID: 8, BSMod: 0, ACMod: 7, LFEOn: 1, BitRateCode: 10})
 	case 9:
 		return trak.SetEC3Descriptor(&mp4.Dec3Box{DataRate: 192, NumIndSub: 0, EC3Subs: []mp4.EC3Sub{{FSCod: 0, BSID: 16, ACMod: 7, LFEOn: 1}}})
-	case 10:
+	case 10, 16:
 		return trak.SetStppDescriptor("http://www.w3.org/ns/ttml", "", "image/png")
 	case 11:
 		return trak.SetWvttDescriptor("")
@@ -132,7 +134,7 @@ func c19Run(c *vf.Ctx, h *c19History) string {
 				return fail("next track id "+where, "next-track id is larger than all track ids", fmt.Sprint(moov.Mvhd.NextTrackID))
 			}
 			media := c19Media(op.Kind)
-			wantH := map[string]string{"video": "vide", "audio": "soun", "subtitle": "subt", "text": "text", "wvtt": "text", "meta": "meta"}[media]
+			wantH := map[string]string{"video": "vide", "audio": "soun", "subtitle": "subt", "stpp": "subt", "text": "text", "wvtt": "text", "meta": "meta"}[media]
 			if tr.Mdia.Hdlr.HandlerType != wantH {
 				return fail("handler type "+where, "handler type matches the media type", fmt.Sprintf("track %d media %s hdlr %s", i, media, tr.Mdia.Hdlr.HandlerType))
 			}
@@ -143,7 +145,7 @@ func c19Run(c *vf.Ctx, h *c19History) string {
 				okHdr = minf.Vmhd != nil && minf.Smhd == nil
 			case "audio":
 				okHdr = minf.Smhd != nil && minf.Vmhd == nil
-			case "subtitle":
+			case "subtitle", "stpp":
 				okHdr = minf.Sthd != nil
 			default:
 				for _, ch := range minf.Children {
@@ -252,7 +254,7 @@ func c19Run(c *vf.Ctx, h *c19History) string {
 				if stsd.EC3 == nil || stsd.EC3.Dec3 == nil || stsd.EC3.Dec3.DataRate != 192 || len(stsd.EC3.Dec3.EC3Subs) != 1 || stsd.EC3.Dec3.EC3Subs[0].BSID != 16 || stsd.EC3.Dec3.EC3Subs[0].ACMod != 7 {
 					return fail("ec-3 config "+where, "ec-3 entry carries the supplied dec3", fmt.Sprintf("track %d", i))
 				}
-			case 10:
+			case 10, 16:
 				if stsd.Stpp == nil || stsd.Stpp.Namespace != "http://www.w3.org/ns/ttml" || stsd.Stpp.AuxiliaryMimeTypes != "image/png" {
 					return fail("stpp config "+where, "stpp entry carries the supplied strings", fmt.Sprintf("track %d", i))
 				}
@@ -399,7 +401,7 @@ func c19Enumerate(depth int, full bool, fn func(h *c19History)) {
 
 func runC19(c *vf.Ctx) {
 	thorough := c.Tier == "thorough"
-	c.Rule = "explicit enumeration of all histories of AddEmptyTrack(timescale in {1,90000,2^32-1}, media in {video,audio,subtitle,text,wvtt,meta}, language in {en,sv,und,eng,en-US,zh-Hant-TW}) each followed by the matching Set{AVC,HEVC,AAC,AC3,EC3,Wvtt,Stpp}Descriptor call (16 track kinds incl. avc1/avc3 with and without parameter sets, two SPS/PPS sets, hvc1/hev1 with SEI, AAC-LC/HE-AAC, no descriptor); every prefix is a checked state: ids/trex/next-track-id, handler and media header, timescale and language carriage, sample entry contents, Encode==EncodeSW, Size, decode by both decoders, re-encode, deep equality with the built tree, and a fragment round trip for every track id. Distinct = distinct encoded inits."
+	c.Rule = "explicit enumeration of all histories of AddEmptyTrack(timescale in {1,90000,2^32-1}, media in {video,audio,subtitle,stpp,text,wvtt,meta}, language in {en,sv,und,eng,en-US,zh-Hant-TW}) each followed by the matching Set{AVC,HEVC,AAC,AC3,EC3,Wvtt,Stpp}Descriptor call (17 track kinds incl. avc1/avc3 with and without parameter sets, two SPS/PPS sets, hvc1/hev1 with SEI, AAC-LC/HE-AAC, no descriptor); every prefix is a checked state: ids/trex/next-track-id, handler and media header, timescale and language carriage, sample entry contents, Encode==EncodeSW, Size, decode by both decoders, re-encode, deep equality with the built tree, and a fragment round trip for every track id. Distinct = distinct encoded inits."
 	var n int64
 	run := func(depth int, full bool) {
 		var hs []*c19History
@@ -420,11 +422,11 @@ func runC19(c *vf.Ctx) {
 	}
 	if thorough {
 		c.SetBudget(10 * 60 * 1e9)
-		c.Bound = "all histories of <= 2 tracks over the full product (16 kinds x 3 timescales x 6 languages), and of <= 4 tracks over 16 kinds x 2 diagonal (timescale, language) choices"
+		c.Bound = "all histories of <= 2 tracks over the full product (17 kinds x 3 timescales x 6 languages), and of <= 4 tracks over 17 kinds x 2 diagonal (timescale, language) choices"
 		run(2, true)
 		run(4, false)
 	} else {
-		c.Bound = "all histories of <= 2 tracks over the full product (16 kinds x 3 timescales x 6 languages), and of <= 3 tracks over 16 kinds x 2 diagonal (timescale, language) choices"
+		c.Bound = "all histories of <= 2 tracks over the full product (17 kinds x 3 timescales x 6 languages), and of <= 3 tracks over 17 kinds x 2 diagonal (timescale, language) choices"
 		run(2, true)
 		run(3, false)
 	}
